@@ -88,6 +88,9 @@ theorem frame_shape (c : Nat) (sh : Shape) (h : ok c sh = true) (n : Nat) (t : L
     obtain ⟨⟨hh1, hh2⟩, rfl⟩ := h
     simp [render, unescF, escStep, grab, bs, hh1, hh2]
 
+/-- the runes the property quantifies over: codes below 256 and printable runes -/
+def InDom (c : Nat) : Prop := c < 256 ∨ Uni.isPrint c = true
+
 def shapeOf (mac : Bool) (c : Nat) : Shape :=
   if c = 7 then .two 0x61 else if c = 8 then .two 0x62
   else if c = 0x7f then (if mac then .two 0x64 else .ctrlQ)
@@ -100,9 +103,10 @@ def shapeOf (mac : Bool) (c : Nat) : Shape :=
   else if 0x80 ≤ c ∧ c ≤ 0xff then .meta_ (c - 0x80)
   else .plain c
 
-theorem escape1_render (mac : Bool) (c : Nat) : escape1 mac c = render (shapeOf mac c) := by
+theorem escape1_render (mac : Bool) (c : Nat) (hd : InDom c) : escape1 mac c = render (shapeOf mac c) := by
+  have hd' : (c < 256 ∨ Uni.isPrint c = true) := hd
   unfold escape1 shapeOf
-  simp only [apply_ite render]
+  simp only [apply_ite render, hd', if_true]
   rfl
 
 /-- finite part: every code below 256 has an image that reads back as itself -/
@@ -121,37 +125,39 @@ theorem ok_hi (mac : Bool) (c : Nat) (h : 256 ≤ c) : ok c (shapeOf mac c) = tr
   rw [this]
   simp [ok, bs]; omega
 
-theorem frame (mac : Bool) (c n : Nat) (t : List Nat) :
+theorem frame (mac : Bool) (c n : Nat) (t : List Nat) (hd : InDom c) :
     unescF (n + 1) (escape1 mac c ++ t) = c :: unescF n t := by
-  rw [escape1_render]
+  rw [escape1_render mac c hd]
   apply frame_shape
   by_cases h : c < 256
   · exact ok_lo mac c h
   · exact ok_hi mac c (by omega)
 
-theorem unescF_escape (mac : Bool) (s : List Nat) :
+theorem escape1_ne_nil (mac : Bool) (c : Nat) (hd : InDom c) : escape1 mac c ≠ [] := by
+  rw [escape1_render mac c hd]; cases shapeOf mac c <;> simp [render]
+
+theorem unescF_escape (mac : Bool) (s : List Nat) (hs : ∀ c ∈ s, InDom c) :
     unescF (escape mac s).length (escape mac s) = s := by
   induction s with
   | nil => simp [escape, unescF]
   | cons c t ih =>
+    have hc : InDom c := hs c (by simp)
+    have ht : ∀ d ∈ t, InDom d := fun d hd => hs d (by simp [hd])
     have e : escape mac (c :: t) = escape1 mac c ++ escape mac t := by simp [escape]
     rw [e]
-    have hpos : 0 < (escape1 mac c).length := by
-      rw [escape1_render]; cases shapeOf mac c <;> simp [render]
+    have hpos : 0 < (escape1 mac c).length := List.length_pos_iff.mpr (escape1_ne_nil mac c hc)
     obtain ⟨k, hk⟩ : ∃ k, (escape1 mac c ++ escape mac t).length = k + 1 := ⟨_, (Nat.succ_pred_eq_of_pos (by simp; omega)).symm⟩
-    rw [hk, frame, unescF_fuel k (escape mac t).length _ (by simp at hk; omega) (Nat.le_refl _), ih]
-
-theorem escape1_ne_nil (mac : Bool) (c : Nat) : escape1 mac c ≠ [] := by
-  rw [escape1_render]; cases shapeOf mac c <;> simp [render]
+    rw [hk, frame mac c k _ hc, unescF_fuel k (escape mac t).length _ (by simp at hk; omega) (Nat.le_refl _), ih ht]
 
 theorem ok_all (mac : Bool) (c : Nat) : ok c (shapeOf mac c) = true := by
   by_cases h : c < 256
   · exact ok_lo mac c h
   · exact ok_hi mac c (by omega)
 
-/-- C19 (repaired code): unescaping an escaped sequence gives it back, for every sequence of
-codes (every code below 256, and above it every rune that `escape` writes verbatim). -/
-theorem unescape_escape (mac : Bool) (s : List Nat) : unescape (escape mac s) = s := by
+/-- C19: unescaping an escaped sequence gives it back, for every sequence of runes of the
+property's domain (every code below 256, every printable rune above). -/
+theorem unescape_escape (mac : Bool) (s : List Nat) (hs : ∀ c ∈ s, InDom c) :
+    unescape (escape mac s) = s := by
   unfold unescape
   split
   · -- the `len(r) == 1` shortcut: only a single plain rune has an image of length one
@@ -159,9 +165,10 @@ theorem unescape_escape (mac : Bool) (s : List Nat) : unescape (escape mac s) = 
     cases s with
     | nil => simp [escape] at h1
     | cons c t =>
+      have hc : InDom c := hs c (by simp)
       have e : escape mac (c :: t) = escape1 mac c ++ escape mac t := by simp [escape]
       rw [e] at h1 ⊢
-      have hne := escape1_ne_nil mac c
+      have hne := escape1_ne_nil mac c hc
       have hl1 : (escape1 mac c).length = 1 ∧ (escape mac t).length = 0 := by
         have : 0 < (escape1 mac c).length := List.length_pos_iff.mpr hne
         simp only [List.length_append] at h1; omega
@@ -169,14 +176,15 @@ theorem unescape_escape (mac : Bool) (s : List Nat) : unescape (escape mac s) = 
         cases t with
         | nil => rfl
         | cons d u =>
+          have hdd : InDom d := hs d (by simp)
           have : 0 < (escape mac (d :: u)).length := by
             have e2 : escape mac (d :: u) = escape1 mac d ++ escape mac u := by simp [escape]
-            have := List.length_pos_iff.mpr (escape1_ne_nil mac d)
+            have := List.length_pos_iff.mpr (escape1_ne_nil mac d hdd)
             rw [e2, List.length_append]; omega
           omega
       subst ht
       have hok := ok_all mac c
-      rw [escape1_render] at hl1 ⊢
+      rw [escape1_render mac c hc] at hl1 ⊢
       cases hsh : shapeOf mac c with
       | plain x =>
         rw [hsh] at hok
@@ -187,6 +195,6 @@ theorem unescape_escape (mac : Bool) (s : List Nat) : unescape (escape mac s) = 
       | ctrl x => rw [hsh] at hl1; simp [render] at hl1
       | meta_ d => rw [hsh] at hl1; simp [render] at hl1
       | hex a b => rw [hsh] at hl1; simp [render] at hl1
-  · exact unescF_escape mac s
+  · exact unescF_escape mac s hs
 
 end RLV.Esc
